@@ -15,7 +15,8 @@ def plan(tier):
         ],
         "rule": "one run = one file: records -> real writer -> bytes -> real reader (exact), then the same bytes "
                 "under two modelled faults and one arbitrary-byte fault; plus every attribute column over a "
-                "6-symbol alphabet up to length 5 (6 thorough) per dialect",
+                "7-symbol alphabet (a ' \" = ; , space) up to length 4 and a rotating third of length 5 (thorough: "
+                "all up to length 6) per dialect",
         "bounds": {"mc": "attribute multimaps <= 2 keys x <= 2 (3 thorough) values over 3 atoms, 3 dialects, both writer "
                          "variants; scanner vs ParseAttrs on all strings over 7 symbols up to length 4 (5 thorough)",
                    "impl": "1-5 records per file, 0-5 attribute keys with 1-4 values, BED k in 0..9, u64 extremes, "
@@ -23,8 +24,9 @@ def plan(tier):
         "assumptions": ["harness conversions only: String <-> byte array, u64 -> decimal digits; fault injection is "
                         "environment (bytes in, bytes out), never an expected value",
                         "csv crate semantics are trusted base: tab separated, '#' comment lines and empty lines "
-                        "skipped, column count fixed by the first record, integers parsed by u64::from_str "
-                        "(0x-prefixed hex integers are left unconstrained)",
+                        "skipped, integers parsed by u64::from_str (0x-prefixed hex integers are left "
+                        "unconstrained); BED: column count fixed by the first record (uniform files); GFF: exactly "
+                        "9 columns per record",
                         "double quotes / CR / non-UTF-8 bytes (csv quoting) are outside the wire model: only "
                         "totality is checked for them (mode wild)"],
     }
@@ -42,7 +44,7 @@ MANIFEST = {
             "order per key), and every line of a corrupted file must be Ok with exactly the reference fields or Err "
             "(bad numbers, wrong column count, invalid phase), never a panic",
     "note": "bounded: small multimaps / short strings in MC; files of <= 5 records on the implementation side; csv "
-            "quoting (double quotes, CR) only checked for totality; one open finding (first GFF line with more than "
-            "9 columns is accepted) is reported as KNOWN-FINDING",
+            "quoting (double quotes, CR) only checked for totality; conformance of the written bytes to the wire "
+            "model and the meaning of malformed attribute columns are machine-layer facts (MODEL-DRIFT, not a verdict)",
     "ref": "sec. 5 C13",
 }
